@@ -41,3 +41,28 @@ Proof. vm_compute. reflexivity. Qed.
 Lemma rx_enc : enc c02x_ke rx_m = enc c02x_ke (MOrD (MCheck (MPkH 0)) (MCheck (MPkK 2)))
   /\ resolve rx_pk rx_m = MOrD (MCheck (MPkH 0)) (MCheck (MPkK 2)).
 Proof. split; reflexivity. Qed.
+
+(* ---- the general theorem (RawPkhResolveGen.v): hypotheses satisfiable with UNRESOLVED / one-sided lookups ---- *)
+From Verif Require Import RawPkhResolveGen.
+(* or_i(c:raw_pk_h([0]), c:raw_pk_h([1])): [1] is known to NO lookup, [0] to the raw SIGNATURE lookup only
+   (lookup_raw_pkh_pk answers nothing at all) *)
+Definition rx_sigonly : rawenv := mkRawEnv (fun _ => None) (fun h => match h with [0] => Some 0 | _ => None end).
+Definition rx_m2 : ms := MOrI (MCheck (MRawPkH [0])) (MCheck (MRawPkH [1])).
+Definition rx_dflt (h : bytes) : key := match h with [k] => k | _ => 0 end.
+
+Lemma rx_gen_hyps :
+  (forall h k, rs_sig rx_sigonly h = Some k -> se_sig (c02x_se true) k <> None) /\
+  (forall h k k', rs_pk rx_sigonly h = Some k -> rs_sig rx_sigonly h = Some k' -> k = k') /\
+  hash_matches c02x_ke (rs_pk rx_sigonly) rx_m2 /\ hash_matches c02x_ke (rs_sig rx_sigonly) rx_m2 /\
+  (forall h, In h (raw_hashes rx_m2) -> kh c02x_ke (rx_dflt h) = h).
+Proof.
+  repeat split.
+  - intros h k E. destruct h as [|[|] [|]]; try discriminate. inversion E; subst. cbn. discriminate.
+  - intros h k k' E. discriminate.
+  - intros h k _ E. discriminate.
+  - intros h k _ E. destruct h as [|[|] [|]]; try discriminate. inversion E; subst. reflexivity.
+  - intros h [<-|[<-|[]]]; reflexivity.
+Qed.
+(* the witness goes through the raw leaf: [sig0 pk0 1] (push order) *)
+Lemma rx_gen_sat : satisfy_r c02x_ke (c02x_se true) rx_sigonly (c02x_f true) false true rx_m2 = Some [[0; 7]; [0]; [1]].
+Proof. vm_compute. reflexivity. Qed.
